@@ -161,8 +161,9 @@ def run(ctx):
                 "application data relation holds.")
     ctx.assumptions = []
     import session_corr
-    ctx.prove(["TLX.Props.C13", "TLX.Props.C13Session", "TLX.Props.C02Out"])
-    ctx.require_theorems(THEOREMS + session_corr.THEOREMS_C13 + ["TLX.Props.C02Out." + t for t in ("meta_only_adds_quic", "meta_only_adds_quic_sublist", "meta_regroup", "out_bytes_from_frames")])
+    ctx.prove(["TLX.Props.C13", "TLX.Props.C13Session", "TLX.Props.C02Out", "TLX.Props.C01Pipeline"])
+    ctx.require_theorems(THEOREMS + session_corr.THEOREMS_C13 + ["TLX.Props.C02Out." + t for t in ("meta_only_adds_quic", "meta_only_adds_quic_sublist", "meta_regroup", "out_bytes_from_frames")] + ["TLX.Props.C01Pipeline.connOut_meta_only_adds",
+                          "TLX.Props.C01Pipeline.handshake13_exports_nothing"])
     import c06_model
     c06_model.run_model(ctx)          # ties TLX.TcpOut to the real OutputBuilder
     import q1_udpout
